@@ -58,10 +58,6 @@ Record t4surf (T : Type) := mkT4 {
   tk : t4kind; tprm : list T; ttr : option (V3 T * M3 T) }.
 Arguments mkT4 {T}. Arguments tk {T}. Arguments tprm {T}. Arguments ttr {T}.
 
-(* what parse_trcl_kw leaves in CellMCNP.trcl: numbers, or the raw strings *)
-Inductive trcl_val (T : Type) := TNum (l : list T) | TStr (n : nat).
-Arguments TNum {T}. Arguments TStr {T}.
-
 Section Model.
   Context {T : Type} (S : Scalar T).
   Local Infix "+!" := (sadd S) (at level 50, left associativity).
@@ -425,12 +421,16 @@ Section Model.
         | Some 0%Z => Ok [(cone, 1%Z)]
         | Some n =>
             let pos := neg_pos s in
-            let plane :=
-              if isz (vx u) && isz (vy u) then plain PLANEZ [(-! pos) /! vz u]
-              else if isz (vy u) && isz (vz u) then plain PLANEX [(-! pos) /! vx u]
-              else if isz (vz u) && isz (vx u) then plain PLANEY [(-! pos) /! vy u]
-              else plain PLANE [vx u; vy u; vz u; pos] in
-            Ok [(cone, 1%Z); (plane, (- n)%Z)]
+            let side := (- n)%Z in
+            (* PLANEX/Y/Z have their normal along the positive axis: the side
+               is flipped when the cone axis points the other way *)
+            let flip := fun c : T => if sltb S 0! c then side else (- side)%Z in
+            let plane_side :=
+              if isz (vx u) && isz (vy u) then (plain PLANEZ [(-! pos) /! vz u], flip (vz u))
+              else if isz (vy u) && isz (vz u) then (plain PLANEX [(-! pos) /! vx u], flip (vx u))
+              else if isz (vz u) && isz (vx u) then (plain PLANEY [(-! pos) /! vy u], flip (vy u))
+              else (plain PLANE [vx u; vy u; vz u; pos], side) in
+            Ok [(cone, 1%Z); plane_side]
         end
     | _ => Err EIndex
     end.
@@ -455,18 +455,11 @@ Section Model.
   (* ---------------- ParseMCNPCell: TRCL / FILL transformation ---------------- *)
   (* entries = float() of the tokens following the keyword; trid = int() of the
      first token (used only when there is exactly one) *)
-  Definition parse_trcl (star : bool) (entries : list T) (trs : list (Z * list T)) (trid : Z)
-    : res (trcl_val T) :=
-    match List.length entries with
-    | 0%nat => Ok (TNum [])
-    | 1%nat => rmap (fun t => TNum (firstn 12 t)) (lookup trid trs)
-    | 3%nat => Ok (TNum (entries ++ ident9))
-    | n => if star
-           then Ok (TNum (firstn 3 entries ++ map to_cos (firstn 9 (skipn 3 entries))))
-           else Ok (TStr n)
-    end.
-
-  Definition parse_fill_tr (star : bool) (entries : list T) (trs : list (Z * list T)) (trid : Z)
+  (* parse_trcl_kw and parse_fill_kw share the same transformation branch
+     (since the repair of the inline TRCL spelling): one id -> the TR card;
+     three numbers -> a translation; otherwise cosines for the starred form
+     (entries 4..12 only: a 13th entry is kept) and normalize_transform *)
+  Definition parse_kw_tr (star : bool) (entries : list T) (trs : list (Z * list T)) (trid : Z)
     : res (list T) :=
     match List.length entries with
     | 0%nat => if star then normalize_transform [] else Ok []
@@ -474,28 +467,24 @@ Section Model.
     | 3%nat => Ok (entries ++ ident9)
     | _ => if star
            then normalize_transform
-                  (map Some (firstn 3 entries ++ map to_cos (firstn 9 (skipn 3 entries))))
+                  (map Some (firstn 3 entries ++ map to_cos (firstn 9 (skipn 3 entries))
+                             ++ skipn 12 entries))
            else normalize_transform (map Some entries)
     end.
+  Definition parse_trcl := parse_kw_tr.
+  Definition parse_fill_tr := parse_kw_tr.
 
-  (* a TRCL value applied to one surface of the cell (pot_transform leaf).
-     Raw strings: Python multiplies str by float -> TypeError (when the frame
-     holds Python ints it concatenates strings instead; not modelled) *)
-  Definition trcl_convert (v : trcl_val T) (s : msurf T) : res (list (t4surf T * Z)) :=
-    match v with
-    | TNum l => tr_convert l s
-    | TStr 0%nat => tr_convert [] s
-    | TStr _ => Err EType
-    end.
+  (* a TRCL value applied to one surface of the cell (pot_transform leaf) *)
+  Definition trcl_convert (v : list T) (s : msurf T) : res (list (t4surf T * Z)) :=
+    tr_convert v s.
 
   (* ---------------- implicit surfaces 1000*cell + surface ---------------- *)
   Definition zmem (x : Z) (l : list Z) : bool := existsb (Z.eqb x) l.
 
-  (* extract_tr_surf_ids(...) - set(dic_surface_mcnp): note the test is on the
-     SIGNED reference *)
+  (* extract_tr_surf_ids(...) - set(dic_surface_mcnp) *)
   Definition implicit_ids (refs defined : list Z) : list Z :=
     nodup Z.eq_dec
-      (filter (fun i => negb (zmem i defined)) (map Z.abs (filter (fun r => (1000 <=? r)%Z) refs))).
+      (filter (fun i => negb (zmem i defined)) (filter (fun r => (1000 <=? r)%Z) (map Z.abs refs))).
 
   Definition tr_all (tr : list T) (l : list (msurf T * Z)) : res (list (msurf T * Z)) :=
     map_res (fun sd => rmap (fun s' => (s', snd sd)) (transformation tr (fst sd))) l.
